@@ -241,8 +241,8 @@ func TestC11Grid(t *testing.T) {
 			if i == 0 && w < h.Base/10 {
 				w += h.Base / 10
 			}
-			if i%97 == 3 {
-				w = 0 // interior zero words
+			if i%97 == 3 || i >= 65535 && i <= 65537 || i >= 131071 && i <= 131073 {
+				w = 0 // interior zero words (also around word 2^16 and 2^17 from the top: readers that work in blocks)
 			}
 			fmt.Fprintf(&b, "%019d", w)
 		}
